@@ -21,6 +21,9 @@
 
 #include "utap/StatementBuilder.hpp"
 
+#ifdef UTAP_VERIF
+#include <cstdlib>
+#endif
 #include <filesystem>
 #include <stdexcept>
 #include <vector>
@@ -410,6 +413,13 @@ void StatementBuilder::dynamic_load_lib(const char* lib)
         handle_error(TypeException{"Cannot_load_empty_library_path"});
         return;
     }
+#ifdef UTAP_VERIF
+    // verification hook: fuzzed `import "..."` declarations must not dlopen arbitrary files into the checker process
+    if (std::getenv("UTAP_VERIF_NO_DLOPEN") != nullptr) {
+        handle_error(TypeException{"$Loading_of_libraries_is_disabled_(UTAP_VERIF_NO_DLOPEN)"});
+        return;
+    }
+#endif
     auto name = std::string(lib + 1, len - 2);  // strip the quote marks
     auto errors = std::vector<std::string>{};   // buffer the errors
     auto success = false;
